@@ -56,7 +56,17 @@ func c17Run(ctx *core.Ctx) {
 						if via == "client" && tr == "bdat" {
 							continue
 						}
-						for _, code := range []int{450, 451, 452, 550, 552, 554, 599} {
+						codesList := []int{450, 451, 452, 550, 552, 554, 599}
+						if ctx.Thorough() {
+							codesList = nil
+							for cd := 400; cd < 600; cd += 7 {
+								if cd != 500 && cd != 502 && cd != 421 {
+									codesList = append(codesList, cd)
+								}
+							}
+							codesList = append(codesList, 450, 451, 452, 550, 552, 554, 599)
+						}
+						for _, code := range codesList {
 							for _, enh := range []string{"set", "unset", "none", "mismatch"} {
 								for _, m := range c17Msgs {
 									emit(c17Case{Callback: cb, Code: code, Enh: enh, Msg: m, Mode: mode, Via: via, Transfer: tr})
